@@ -23,11 +23,17 @@ open Effects
 
 /-- Any name table closed under the statements of `p` bounds every execution: whatever the order, repetition or early exit,
 the names stay below it and only objects in its write set ever change version. -/
-theorem postfix_bounds_every_trace (S : List Summary) (p : List Stmt) (A : Pts) (hpost : isPost S p A = true)
-    (tr : List Nat) (ver : Obj → Nat) :
+theorem postfix_bounds_every_trace (S : List Summary) (p : List Stmt) (A : Pts)
+    (hpost : ∀ s, s ∈ p → Le (step S s A) A) (tr : List Nat) (ver : Obj → Nat) :
     Le (execTrace S p tr (entry ver)).pts A ∧
       ∀ o, o ∉ writeSet S p A → (execTrace S p tr (entry ver)).ver o = ver o :=
-  trace_bounded S p A (isPost_sound hpost) tr (entry ver) (nil_le A)
+  trace_bounded S p A hpost tr (entry ver) (nil_le A)
+
+/-- both executable closedness checks establish the hypothesis of `postfix_bounds_every_trace` -/
+theorem closedness_checks_sound (S : List Summary) (p : List Stmt) (A : Pts) :
+    (isPost S p A = true → ∀ s, s ∈ p → Le (step S s A) A) ∧
+    (passClosed S p A = true → ∀ s, s ∈ p → Le (step S s A) A) :=
+  ⟨isPost_sound, passClosed_sound⟩
 
 example : isPost [] [.param 0 0, .elem 1 0, .shallow 2 [0], .write 2] (analyse [] [.param 0 0, .elem 1 0, .shallow 2 [0], .write 2] 2) = true := by
   decide
@@ -52,7 +58,7 @@ theorem mayWrite_sound (S : List Summary) (p : List Stmt) (fuel : Nat)
       (execTrace S p tr (entry ver)).ver (.root i) = ver (.root i) ∧
       (execTrace S p tr (entry ver)).ver (.inner i) = ver (.inner i) := by
   intro tr ver i
-  have hb := (postfix_bounds_every_trace S p (analyse S p fuel) hok tr ver).2
+  have hb := (postfix_bounds_every_trace S p (analyse S p fuel) (passClosed_sound hok) tr ver).2
   have hnil := dedup_eq_nil h
   rw [List.filterMap_eq_nil_iff] at hnil
   constructor
@@ -80,7 +86,7 @@ theorem mayWriteGlobal_sound (S : List Summary) (p : List Stmt) (fuel : Nat)
     ∀ (tr : List Nat) (ver : Obj → Nat) (g : Nat),
       (execTrace S p tr (entry ver)).ver (.glob g) = ver (.glob g) := by
   intro tr ver g
-  have hb := (postfix_bounds_every_trace S p (analyse S p fuel) hok tr ver).2
+  have hb := (postfix_bounds_every_trace S p (analyse S p fuel) (passClosed_sound hok) tr ver).2
   have hnil := dedup_eq_nil h
   rw [List.filterMap_eq_nil_iff] at hnil
   apply hb
